@@ -423,7 +423,8 @@ def _single_use_temps(fn):
                 continue
             if (prev is not None and isinstance(prev, ast.Assign) and len(prev.targets) == 1 and isinstance(prev.targets[0], ast.Name)
                     and prev.targets[0].id in cands and isinstance(s, (ast.Assign, ast.Return, ast.Expr)) and s.value is not None
-                    and not (isinstance(s, ast.Assign) and not all(_simple(t) for t in s.targets))):
+                    and not (isinstance(s, ast.Assign) and any(isinstance(x, ast.Name) and x.id == prev.targets[0].id for t in s.targets for x in ast.walk(t)))):
+                # (an assignment evaluates its value before the sub-expressions of its target, so the target's shape does not matter)
                 nm = prev.targets[0].id
                 if isinstance(s.value, ast.Name) and s.value.id == nm:
                     s.value = prev.value
@@ -923,6 +924,42 @@ class _HoistWalrus(ast.NodeTransformer):
         return out
 
 
+class _FoldConst(ast.NodeTransformer):
+    """N15b  comparisons / negations / and-or of literal constants (left behind when a parameter is specialised: `0 == 0`) are folded"""
+
+    def visit_Compare(self, node):
+        self.generic_visit(node)
+        # N15b  a comparison between two literal constants (after a parameter was specialised: `0 == 0`) is folded
+        if len(node.ops) == 1 and isinstance(node.left, ast.Constant) and isinstance(node.comparators[0], ast.Constant) \
+                and isinstance(node.left.value, (int, float, bool, str, type(None))) and isinstance(node.comparators[0].value, (int, float, bool, str, type(None))):
+            a_, b_, op = node.left.value, node.comparators[0].value, node.ops[0]
+            try:
+                v = {ast.Eq: lambda: a_ == b_, ast.NotEq: lambda: a_ != b_, ast.Lt: lambda: a_ < b_, ast.LtE: lambda: a_ <= b_, ast.Gt: lambda: a_ > b_,
+                     ast.GtE: lambda: a_ >= b_, ast.Is: lambda: a_ is b_, ast.IsNot: lambda: a_ is not b_}.get(type(op), lambda: None)()
+            except Exception:  # noqa
+                v = None
+            if isinstance(v, bool):
+                return ast.copy_location(ast.Constant(value=v), node)
+        return node
+
+    def visit_UnaryOp(self, node):
+        self.generic_visit(node)
+        if isinstance(node.op, ast.Not) and isinstance(node.operand, ast.Constant) and isinstance(node.operand.value, bool):
+            return ast.copy_location(ast.Constant(value=not node.operand.value), node)
+        return node
+
+    def visit_BoolOp(self, node):
+        self.generic_visit(node)
+        if all(isinstance(v, ast.Constant) and isinstance(v.value, bool) for v in node.values):
+            vals = [v.value for v in node.values]
+            return ast.copy_location(ast.Constant(value=all(vals) if isinstance(node.op, ast.And) else any(vals)), node)
+        if isinstance(node.op, ast.And) and any(isinstance(v, ast.Constant) and v.value is False for v in node.values):
+            return ast.copy_location(ast.Constant(value=False), node) if isinstance(node.values[0], ast.Constant) else node
+        if isinstance(node.op, ast.Or) and isinstance(node.values[0], ast.Constant) and node.values[0].value is True:
+            return ast.copy_location(ast.Constant(value=True), node)
+        return node
+
+
 class _Tidy(ast.NodeTransformer):
     """N8  no-op statements left behind by the inliner / by refactorings: `x = x` on a plain name is dropped; a conditional whose taken arm is
     empty is turned round (`if c: pass / else: B` -> `if not c: B`); a conditional with nothing in either arm keeps its test as an expression
@@ -941,6 +978,8 @@ class _Tidy(ast.NodeTransformer):
                 if isinstance(s, ast.Pass) and len(stmts) > 1:
                     continue
                 out.append(s)
+                if isinstance(s, (ast.Return, ast.Raise, ast.Continue, ast.Break)):
+                    return out   # statements after it in this block are never executed
         return out
 
     def generic_visit(self, node):
@@ -964,6 +1003,7 @@ class _Tidy(ast.NodeTransformer):
 
     def visit_If(self, node):
         self.generic_visit(node)
+        node.test = _FoldConst().visit(node.test)
         # N17  `if not c: raise AssertionError(msg)` is the statement `assert c, msg`
         if not node.orelse and len(node.body) == 1 and isinstance(node.body[0], ast.Raise) and node.body[0].cause is None:
             e = node.body[0].exc
